@@ -244,6 +244,8 @@ def run(rep, tier):
     r_lu_full(rep, f)
     C17.r_band_map(rep, f)
     C17.r_mat_repinv(rep, f)
+    rep.rule("R-BAND-KEEP", "a Banded storage descriptor built from a requested (ml, mu) keeps ml as ml and mu as mu - Matrix::from_storage is how the solvers allocate the Jacobian / mass storage the user configured")
+    C17.r_band_keep(rep, f)
     rep.rule("R-MASS-DEFAULT", "the default IVP::mass leaves a matrix that reads as the identity for every storage the solver may have allocated (Identity, Full, Banded(ml, mu), n <= 3; exact evaluation)")
     import matx
     matx.r_mass_default_dense(rep, f, 3)
